@@ -9,13 +9,15 @@ import (
 )
 
 type tableCase struct {
-	Row int `json:"row"`
+	Row int  `json:"row"`
+	Via bool `json:"via"` // the constraint is put on the path ex.l0 / ex.p0 and the values on child nodes
 }
 
 // witnessSets enumerates value assignments for a row together with the truth
 // value the table gives them. single=true marks assignments usable under negation.
 type witness struct {
 	vals, vals2 []m.Lit
+	groups      [][]m.Lit // for uniqueValues: the values of each child
 	truth       bool
 	single      bool
 }
@@ -71,6 +73,17 @@ func rowWitnesses(r m.AtomRow) []witness {
 			}
 			ws = append(ws, witness{vals: vals, truth: tv, single: true})
 		}
+	case "unique":
+		x, y := m.S("x"), m.S("y")
+		ws = append(ws,
+			witness{groups: nil, truth: true, single: true},
+			witness{groups: [][]m.Lit{{x}}, truth: true, single: true},
+			witness{groups: [][]m.Lit{{x}, {y}}, truth: true, single: true},
+			witness{groups: [][]m.Lit{{x}, {x}}, truth: false, single: true},
+			witness{groups: [][]m.Lit{{x, y}, {y}}, truth: false, single: true},
+			witness{groups: [][]m.Lit{{x}, {y}, {m.I(4)}, {y}}, truth: false, single: true},
+			witness{groups: [][]m.Lit{{x, y}, {}}, truth: true, single: true},
+		)
 	case "cmp":
 		for _, x := range m.CmpPool {
 			for _, y := range m.CmpPool {
@@ -102,6 +115,12 @@ func decideTableRow(c tableCase) ev.Verdict {
 	a := &m.Atom{ID: 0, Row: c.Row, Prop: "p0"}
 	if r.Class == "cmp" {
 		a.Prop2 = "q0"
+		if c.Via {
+			return ev.Verdict{Discard: true, Detail: "comparisons are not put on paths"}
+		}
+	}
+	if c.Via || r.Class == "unique" {
+		a.Via = "l0"
 	}
 	prof := m.Profile{Name: "table", Validations: []m.Validation{
 		{Name: "plain", Level: "violation", Class: "ex.Test", Body: m.AtomF(a)},
@@ -116,11 +135,38 @@ func decideTableRow(c tableCase) ev.Verdict {
 			types = append(types, m.NS+"Single")
 		}
 		i := g.Add(types...)
+		if a.Via != "" {
+			groups := w.groups
+			if r.Class != "unique" {
+				switch {
+				case len(w.vals) == 0:
+				case len(w.vals) == 1:
+					groups = [][]m.Lit{w.vals}
+				default: // spread the values over two children
+					groups = [][]m.Lit{w.vals[:1], w.vals[1:]}
+				}
+			}
+			for _, grp := range groups {
+				ci := g.Add(m.NS + "Aux")
+				g.Nodes[i].AddVal(m.NS+"l0", m.NV(ci))
+				for _, l := range grp {
+					g.Nodes[ci].AddVal(m.NS+"p0", m.LV(l))
+				}
+			}
+			continue
+		}
 		for _, l := range w.vals {
 			g.Nodes[i].AddVal(m.NS+"p0", m.LV(l))
 		}
 		for _, l := range w.vals2 {
 			g.Nodes[i].AddVal(m.NS+"q0", m.LV(l))
+		}
+	}
+	// aux nodes were appended after some witnesses: remember which node belongs to which witness
+	var witnessNode []int
+	for i, n := range g.Nodes {
+		if n.HasType(classTest) {
+			witnessNode = append(witnessNode, i)
 		}
 	}
 	text := prof.ToY().Print(m.YOpts{})
@@ -141,10 +187,11 @@ func decideTableRow(c tableCase) ev.Verdict {
 		return false
 	}
 	plain, neg, dn := rep.FocusSet("plain"), rep.FocusSet("negated"), rep.FocusSet("doubleneg")
-	for i, w := range ws {
+	for wi, w := range ws {
+		i := witnessNode[wi]
 		id := g.Nodes[i].ID
 		// cross-check the reference evaluator against the table's own truth value
-		tv, ok := m.EvalAtom(a, g.Nodes[i])
+		tv, ok := m.EvalAtom(a, g, g.Nodes[i])
 		if !ok || tv != w.truth {
 			return ev.Verdict{Discard: true, Detail: fmt.Sprintf("table/evaluator disagree on row %d witness %d", c.Row, i)}
 		}
@@ -160,7 +207,11 @@ func decideTableRow(c tableCase) ev.Verdict {
 			}
 		}
 	}
-	return ev.Verdict{OK: true, NonTrivial: true, Labels: []string{"table:" + r.Kind}, Obs: map[string]int{"table_witnesses": len(ws)}}
+	lab := "table:" + r.Kind
+	if a.Via != "" {
+		lab += ":via-path"
+	}
+	return ev.Verdict{OK: true, NonTrivial: true, Labels: []string{lab}, Obs: map[string]int{"table_witnesses": len(ws)}}
 }
 
 func argString(r m.AtomRow) string {
@@ -181,7 +232,7 @@ func keys(ls []m.Lit) []string {
 func TestC01AtomTable(t *testing.T) {
 	var cases []tableCase
 	for i := range m.AtomTable {
-		cases = append(cases, tableCase{Row: i})
+		cases = append(cases, tableCase{Row: i}, tableCase{Row: i, Via: true})
 	}
 	ev.RunFixed(t, "C01", cases, decideTableRow)
 }
